@@ -253,6 +253,9 @@ let model_line out w line =
              let rd () = let a = num t in let x = num t in let y = num t in (n_of_int a, (z_of_int x, z_of_int y)) in
              let a = rd () in let b = rd () in
              out (cmp_line (mouse_eqb a b) (mouse_cmp a b) "-")
+         | "gptr" ->
+             let g = glyph_of_cstr (unhex (str t)) in
+             out (Printf.sprintf "G %d %d %d %d" (int_of_n (cs_index g.gcs)) (int_of_n g.g0) (int_of_n g.g1) (int_of_n g.g2))
          | "show" ->
              let k = num t in
              let vals = List.init k (fun _ ->
